@@ -61,6 +61,7 @@ type vfcAttempt struct {
 	Routes []int // per accepted put
 	IDs    []int
 	before map[int]int // arrivals at the nodes before this attempt
+	putErr bool        // a Put was refused: Exec/Dispatch return that error before sending anything
 }
 
 type vfcResult struct {
@@ -70,6 +71,7 @@ type vfcResult struct {
 	Attempts []vfcAttempt
 	Owner0   []int // initial owner per key
 	Notes    []string
+	Dropped  []int // commands Put accepted without routing them anywhere
 }
 
 func vfcErrClass(err error) string {
@@ -109,9 +111,13 @@ func vfcRun(scn *vfcScn) (*vfcResult, error) {
 	for _, k := range scn.Keys {
 		res.Owner0 = append(res.Owner0, d.OwnerOf(vfdoubles.ClusterSlot(k)))
 	}
+	// stxn / stxnpipe: the sender's transactional path (output.go sendFuncOnce): a plain
+	// Batch / batch2 bracketed by Put("multi") … Put("exec") — which the cluster client does
+	// not send, it only confines the batch to one node — with redirect following switched off
+	senderTxn := scn.Mode == "stxn" || scn.Mode == "stxnpipe"
 	c, err := NewCluster(&Options{
 		StartNodes: d.Addrs()[:m], ConnTimeout: 2 * time.Second, ReadTimeout: 30 * time.Second, WriteTimeout: 30 * time.Second,
-		KeepAlive: 8, AliveTime: time.Minute, HandleMoveError: true, HandleAskError: true,
+		KeepAlive: 8, AliveTime: time.Minute, HandleMoveError: !senderTxn, HandleAskError: !senderTxn,
 	})
 	if err != nil {
 		return nil, err
@@ -154,37 +160,65 @@ func vfcRun(scn *vfcScn) (*vfcResult, error) {
 	build := func(i int, first bool) (common.CmdBatcher, *vfcAttempt) {
 		var b common.CmdBatcher
 		switch scn.Mode {
-		case "sync":
+		case "sync", "stxn":
 			b = c.NewBatcher(false)
-		case "pipe":
+		case "pipe", "stxnpipe":
 			b = c.NewBatcher(true)
 		default:
 			b = c.NewTxnBatcher()
 		}
 		at := &vfcAttempt{Batch: i, Seg: d.Seg(), before: d.Arrivals()}
+		if senderTxn {
+			b.Put("multi")
+		}
 		for j, cm := range scn.Batches[i] {
 			if first && scn.MidPut[fmt.Sprintf("%d.%d", i, j)] {
 				refresh()
 			}
 			args := []interface{}{}
-			for _, k := range cm.Keys {
-				args = append(args, scn.Keys[k])
+			switch cm.Name {
+			case "select":
+				args = append(args, "0")
+			case "ping":
+			case "publish":
+				args = append(args, "chan", fmt.Sprintf("#%d", cm.ID))
+			case "mset":
+				for _, k := range cm.Keys {
+					args = append(args, scn.Keys[k], fmt.Sprintf("#%d", cm.ID))
+				}
+			default:
+				for _, k := range cm.Keys {
+					args = append(args, scn.Keys[k])
+				}
+				if cm.Name == "hset" {
+					args = append(args, "f")
+				}
+				args = append(args, fmt.Sprintf("#%d", cm.ID))
 			}
-			if cm.Name == "hset" {
-				args = append(args, "f")
-			}
-			args = append(args, fmt.Sprintf("#%d", cm.ID))
 			before := len(VerifRoutes(b))
 			perr := b.Put(cm.Name, args...)
 			rs := VerifRoutes(b)
+			if cm.Name == "ping" {
+				continue // routed to a random node, answered PONG; not part of the trace
+			}
 			if perr != nil || len(rs) != before+1 {
-				res.Notes = append(res.Notes, fmt.Sprintf("put-rejected:%d:%s", cm.ID, vfcErrClass(perr)))
+				res.Notes = append(res.Notes, fmt.Sprintf("put-rejected:%d:%s:%s", cm.ID, vfcErrClass(perr), cm.Name))
+				if perr != nil {
+					at.putErr = true
+				}
+				if perr == nil && cm.Name != "select" {
+					// neither routed nor refused: the command would vanish without a trace
+					res.Dropped = append(res.Dropped, cm.ID)
+				}
 				continue
 			}
 			n := d.NodeOfAddr(rs[len(rs)-1])
 			at.Routes = append(at.Routes, n)
 			at.IDs = append(at.IDs, cm.ID)
 			d.Log(fmt.Sprintf("P:%d:%d:%d:%d", i, cm.ID, cm.Keys[0], n))
+		}
+		if senderTxn {
+			b.Put("exec")
 		}
 		return b, at
 	}
@@ -197,7 +231,7 @@ func vfcRun(scn *vfcScn) (*vfcResult, error) {
 	// processed. A failed one may never have sent a node-batch at all (getConn on
 	// a node object closed by a refresh): after a short grace period what has
 	// not arrived is recorded as unsent ("U").
-	settle := func(at *vfcAttempt, failed bool) {
+	settle := func(at *vfcAttempt, b common.CmdBatcher, failed bool) {
 		if !failed {
 			if !d.WaitSeen(at.IDs, 2*time.Second) {
 				res.Notes = append(res.Notes, "quiesce-timeout")
@@ -208,28 +242,48 @@ func vfcRun(scn *vfcScn) (*vfcResult, error) {
 			d.WaitSeen(at.IDs, 150*time.Millisecond)
 			return
 		}
-		for _, id := range d.WaitProgress(at.IDs, at.before, 150*time.Millisecond) {
-			if !txn {
-				d.Log(fmt.Sprintf("U:%d:%d", at.Batch, id))
+		if b == nil {
+			// abandoned in-flight batch of a failed pipelined run: nothing follows, only
+			// let the nodes drain what was sent
+			d.WaitProgress(at.IDs, at.before, 150*time.Millisecond)
+			return
+		}
+		// which commands never left the client is read off the batcher (no timing);
+		// everything else was flushed before the first reply was read and must arrive
+		unsent := map[int]bool{}
+		for _, p := range VerifUnsent(b) {
+			if p < len(at.IDs) {
+				unsent[at.IDs[p]] = true
 			}
-			res.Notes = append(res.Notes, "unsent")
+		}
+		var sent []int
+		for _, id := range at.IDs {
+			if unsent[id] {
+				d.Log(fmt.Sprintf("U:%d:%d", at.Batch, id))
+				res.Notes = append(res.Notes, "unsent")
+			} else {
+				sent = append(sent, id)
+			}
+		}
+		if len(d.WaitProgress(sent, at.before, 5*time.Second)) > 0 {
+			res.Notes = append(res.Notes, "quiesce-timeout")
 		}
 	}
-	finish := func(at *vfcAttempt, err error) {
+	finish := func(at *vfcAttempt, b common.CmdBatcher, err error) {
 		at.OK = err == nil
 		at.Err = vfcErrClass(err)
 		if err == nil {
-			settle(at, false)
+			settle(at, b, false)
 			d.Log(fmt.Sprintf("E:%d:ok", at.Batch))
 		} else {
 			d.Log(fmt.Sprintf("E:%d:er", at.Batch))
-			settle(at, true)
+			settle(at, b, true)
 		}
 		res.Attempts = append(res.Attempts, *at)
 	}
 
 	switch scn.Mode {
-	case "sync", "txn":
+	case "sync", "txn", "stxn":
 	outer:
 		for i := range scn.Batches {
 			between(i)
@@ -240,13 +294,13 @@ func vfcRun(scn *vfcScn) (*vfcResult, error) {
 				}
 				d.Log(fmt.Sprintf("D:%d:%s", i, mtag))
 				_, err := b.Exec()
-				finish(at, err)
+				finish(at, b, err)
 				if err == nil {
 					break
 				}
 				// sender: a plain batch is retried (output.go sendFunc, < 3 tries);
 				// a transactional one ends the run
-				if txn || try >= 2 {
+				if txn || senderTxn || try >= 2 {
 					break outer
 				}
 				d.NextSegment()
@@ -267,7 +321,7 @@ func vfcRun(scn *vfcScn) (*vfcResult, error) {
 			f := inflight[0]
 			inflight = inflight[1:]
 			_, err := f.b.Receive()
-			finish(f.at, err)
+			finish(f.at, f.b, err)
 			if err != nil {
 				failed = true
 			}
@@ -283,7 +337,7 @@ func vfcRun(scn *vfcScn) (*vfcResult, error) {
 			}
 			d.Log(fmt.Sprintf("D:%d:%s", i, mtag))
 			if err := b.Dispatch(); err != nil {
-				finish(at, err)
+				finish(at, b, err)
 				failed = true
 				break
 			}
@@ -298,7 +352,7 @@ func vfcRun(scn *vfcScn) (*vfcResult, error) {
 		// a failed run: what is still in flight is never received (the sender
 		// closes the run); wait until the servers have consumed what was sent
 		for _, f := range inflight {
-			settle(f.at, true)
+			settle(f.at, nil, true)
 			f.at.Err = "abandoned"
 			res.Attempts = append(res.Attempts, *f.at)
 		}
@@ -313,7 +367,10 @@ type vfcViol struct{ what, detail string }
 
 func vfcMonitor(scn *vfcScn, res *vfcResult) []vfcViol {
 	var out []vfcViol
-	txn := scn.Mode == "txn" || scn.Mode == "txnpipe"
+	txn := scn.Mode == "txn" || scn.Mode == "txnpipe" || scn.Mode == "stxn" || scn.Mode == "stxnpipe"
+	for _, id := range res.Dropped {
+		out = append(out, vfcViol{"put-silently-dropped", fmt.Sprintf("Put of cmd %d returned nil but the command was not routed to any node", id)})
+	}
 	keysOf := map[int][]int{}
 	for _, b := range scn.Batches {
 		for _, cm := range b {
@@ -359,7 +416,7 @@ func vfcMonitor(scn *vfcScn, res *vfcResult) []vfcViol {
 					// queues while both unfinished (D21 same batch, D22 batch in flight)
 					w := "per-key-inversion"
 					lo, hi := e.ID, last[sk]
-					pipelined := (scn.Mode == "pipe" || scn.Mode == "txnpipe") && scn.Window > 1
+					pipelined := (scn.Mode == "pipe" || scn.Mode == "txnpipe" || scn.Mode == "stxnpipe") && scn.Window > 1
 					if idRoute[lo] != idRoute[hi] && idBatch[lo] == idBatch[hi] {
 						w = "batch-route-split"
 					} else if pipelined && idBatch[lo] != idBatch[hi] && (idRoute[lo] != idRoute[hi] || redirected[idBatch[lo]]) {
@@ -413,7 +470,11 @@ func vfcLines(tag string, scn *vfcScn, res *vfcResult) (string, []string) {
 	for i, o := range res.Owner0 {
 		own[i] = fmt.Sprint(o)
 	}
-	fmt.Fprintf(&sb, "c19 %s %s %d %s %s", tag, scn.Mode, scn.N, vfutil.HexList(hexKeys), strings.Join(own, ","))
+	mode := scn.Mode
+	if scn.Adv {
+		mode += "?" // adversarial schedule: the quiet line is not compared
+	}
+	fmt.Fprintf(&sb, "c19 %s %s %d %s %s", tag, mode, scn.N, vfutil.HexList(hexKeys), strings.Join(own, ","))
 	for _, e := range res.Trace {
 		sb.WriteByte(' ')
 		sb.WriteString(e)
@@ -424,6 +485,11 @@ func vfcLines(tag string, scn *vfcScn, res *vfcResult) (string, []string) {
 		return sb.String(), []string{fmt.Sprintf("%s reject route-split %d", tag, id)}
 	}
 	lines := []string{tag + " accept"}
+	if !scn.Adv && scn.Mode != "txn" && scn.Mode != "txnpipe" {
+		// the generator never lets a slot return to a node it left, so the run must
+		// satisfy the theorem's QuietRun hypothesis (the model evaluates it on the trace)
+		lines = append(lines, tag+" quiet true")
+	}
 	for n, l := range res.NodeLog {
 		s := "."
 		if len(l) > 0 {
@@ -526,17 +592,23 @@ func vfcGen(r *vfutil.Rand, name string) *vfcScn {
 			scn.Keys = append(scn.Keys, fmt.Sprintf("k%d{t%d%s}", j, t, name))
 		}
 	}
-	switch x := r.Intn(20); {
+	switch x := r.Intn(23); {
 	case x < 8:
 		scn.Mode = "sync"
 	case x < 13:
 		scn.Mode, scn.Window = "pipe", r.Range(1, 3)
 	case x < 16:
 		scn.Mode = "txn"
-	default:
+	case x < 20:
 		scn.Mode, scn.Window = "txnpipe", r.Range(1, 4)
+	case x < 22:
+		scn.Mode = "stxn"
+	default:
+		scn.Mode, scn.Window = "stxnpipe", r.Range(1, 2)
 	}
-	txn := scn.Mode == "txn" || scn.Mode == "txnpipe"
+	realTxn := scn.Mode == "txn" || scn.Mode == "txnpipe"
+	senderTxn := scn.Mode == "stxn" || scn.Mode == "stxnpipe"
+	txn := realTxn || senderTxn
 	names := []string{"set", "append", "lpush", "sadd", "hset"}
 	id := 1
 	nb := r.Range(2, 6)
@@ -550,10 +622,40 @@ func vfcGen(r *vfutil.Rand, name string) *vfcScn {
 		tt := r.Intn(nt)
 		for j := 0; j < nc; j++ {
 			t := tt
-			if !txn {
+			if !txn || (senderTxn && r.Chance(1, 6)) {
 				t = r.Intn(nt)
 			}
 			ks := tagKeys[t]
+			// command classes the router distinguishes (not for txnBatcher, whose Put is strict)
+			if !realTxn {
+				special := true
+				switch x := r.Intn(120); {
+				case x < 3:
+					batch = append(batch, vfcCmd{id, "select", nil})
+				case x < 6:
+					batch = append(batch, vfcCmd{id, "ping", nil})
+				case x < 7 && r.Chance(1, 3):
+					batch = append(batch, vfcCmd{id, "publish", nil})
+				case x < 8:
+					special = false
+				case x < 14:
+					batch = append(batch, vfcCmd{id, "vfgk", []int{vfutil.Pick(r, ks)}}) // keys only via COMMAND GETKEYS
+				case x < 20:
+					batch = append(batch, vfcCmd{id, "vffb", []int{vfutil.Pick(r, ks)}}) // GETKEYS empty: args[0] fallback
+				case x < 25 && len(ks) >= 2:
+					batch = append(batch, vfcCmd{id, "mset", []int{ks[0], ks[1]}}) // one slot
+				case x < 26 && nt >= 2 && r.Chance(1, 2):
+					o := tagKeys[(t+1)%nt]
+					batch = append(batch, vfcCmd{id, "mset", []int{ks[0], o[0]}}) // two slots: one node (server CROSSSLOT) or two (Put refuses)
+				default:
+					special = false
+				}
+				if special {
+					id++
+					total++
+					continue
+				}
+			}
 			if len(ks) >= 2 && r.Chance(1, 12) {
 				a := r.Intn(len(ks))
 				bb := (a + 1 + r.Intn(len(ks)-1)) % len(ks)
@@ -677,7 +779,12 @@ func vfcOne(s *vfutil.Session, idx int, scn *vfcScn) {
 	s.Op(op, lines...)
 	s.Count("mode_" + scn.Mode)
 	for _, n := range res.Notes {
-		s.Count("note_" + strings.SplitN(n, ":", 2)[0])
+		f := strings.Split(n, ":")
+		if f[0] == "put-rejected" && len(f) == 4 {
+			s.Count("put_" + f[3] + "_" + f[2]) // command name, error class ("ok" = dropped without error)
+		} else {
+			s.Count("note_" + f[0])
+		}
 	}
 	redirects := 0
 	for _, e := range res.Trace {
